@@ -390,8 +390,8 @@ pub fn case(rng: &mut Rng, w: &Weights, tag: &str) -> String {
         let res = catch_unwind(AssertUnwindSafe(|| run(&mut next)));
         let trace = verif_hooks::take_trace();
         let log = verif_hooks::stop();
-        if res.is_err() {
-            out.push_str("panic");
+        if let Err(e) = &res {
+            out.push_str(panic_token(e));
             break;
         }
         out.push_str("ok ");
@@ -417,14 +417,12 @@ pub fn case(rng: &mut Rng, w: &Weights, tag: &str) -> String {
             verif_hooks::start(HashMap::new());
             let r = catch_unwind(AssertUnwindSafe(|| again.infeasible_elimination()));
             let log2 = verif_hooks::stop();
-            let mut a = String::new();
-            let mut b = String::new();
-            enc::afftree(&mut a, &again);
-            enc::afftree(&mut b, &next);
             match r {
-                Ok(counter) => write!(out, " idem {} {} {}", if a == b { 1 } else { 0 }, counter.lps_solved, log2.len()).unwrap(),
+                Ok(counter) => write!(out, " idem {} {} {}", same_code(&again, &next), counter.lps_solved, log2.len()).unwrap(),
                 Err(_) => out.push_str(" idem 0 999 999"),
             }
+            // the values after the second run (a sweep that trusts the caches must not change the function)
+            out.push_str(&evals(&again));
         } else if opclass == 2 {
             let mut again = next.clone();
             let r = catch_unwind(AssertUnwindSafe(|| again.reduce()));
@@ -433,6 +431,7 @@ pub fn case(rng: &mut Rng, w: &Weights, tag: &str) -> String {
             enc::afftree(&mut a, &again);
             enc::afftree(&mut b, &next);
             write!(out, " idem {} 0 0", if r.is_ok() && a == b { 1 } else { 0 }).unwrap();
+            out.push_str(&evals(&again));
         } else {
             out.push_str(" noidem");
         }
@@ -451,6 +450,34 @@ pub fn case(rng: &mut Rng, w: &Weights, tag: &str) -> String {
 
 use affinitree::distill::builder::{afftree_from_layers, afftree_from_layers_csv, afftree_from_layers_verbose, Layer};
 use affinitree::linalg::affine::Polytope;
+
+/// 1: identical, 2: identical up to the cached feasibility states, 0: structure or maps differ
+fn same_code(x: &AffTree<2>, y: &AffTree<2>) -> u8 {
+    let mut a = String::new();
+    let mut b = String::new();
+    enc::afftree(&mut a, x);
+    enc::afftree(&mut b, y);
+    if a == b {
+        return 1;
+    }
+    let strip = |t: &AffTree<2>| -> String {
+        let mut c = t.clone();
+        for i in c.tree.node_indices().collect::<Vec<_>>() {
+            c.tree.node_value_mut(i).unwrap().state = affinitree::pwl::node::NodeState::Indeterminate;
+        }
+        let mut s = String::new();
+        enc::afftree(&mut s, &c);
+        s
+    };
+    if strip(x) == strip(y) { 2 } else { 0 }
+}
+
+/// "panic", or "panicS" when the panic is the `SingularMatrix` unwrap inside the external LP solver (minilp 0.2.2,
+/// `BasisSolver::reset`): the message of the payload tells
+fn panic_token(e: &Box<dyn std::any::Any + Send>) -> &'static str {
+    let msg = e.downcast_ref::<String>().map(|s| s.as_str()).or_else(|| e.downcast_ref::<&str>().copied()).unwrap_or("");
+    if msg.contains("SingularMatrix") { "panicS" } else { "panic" }
+}
 
 fn layer_desc(l: &Layer) -> String {
     match l {
@@ -555,9 +582,17 @@ pub fn net_case(rng: &mut Rng, thorough: bool) -> String {
             layers.push(Layer::ClassChar(rng.below(dim)));
         }
     }
+    // one network in eight has weights of large magnitude (small lattice values times 2^5 .. 2^12): the solver's vertices
+    // then miss `contains` by more than its absolute tolerance and the repair heuristics are exercised
+    let big: f64 = if rng.chance(1, 8) { (2.0f64).powi(5 + rng.below(8) as i32) } else { 1.0 };
     for _ in 0..hidden {
         let width = 1 + rng.below(3);
-        layers.push(Layer::Linear(rand_aff(rng, width, dim)));
+        let mut a = rand_aff(rng, width, dim);
+        if big != 1.0 {
+            a.mat.mapv_inplace(|v| v * big);
+            a.bias.mapv_inplace(|v| v * big);
+        }
+        layers.push(Layer::Linear(a));
         dim = width;
         for i in 0..dim {
             match rng.below(8) {
@@ -672,8 +707,8 @@ pub fn net_case(rng: &mut Rng, thorough: bool) -> String {
             let res = catch_unwind(AssertUnwindSafe(|| run(&mut next)));
             let trace = verif_hooks::take_trace();
             let log = verif_hooks::stop();
-            if res.is_err() {
-                out.push_str("panic");
+            if let Err(e) = &res {
+                out.push_str(panic_token(e));
                 panicked = true;
                 break;
             }
@@ -693,14 +728,11 @@ pub fn net_case(rng: &mut Rng, thorough: bool) -> String {
                 verif_hooks::start(HashMap::new());
                 let r = catch_unwind(AssertUnwindSafe(|| again.infeasible_elimination()));
                 let log2 = verif_hooks::stop();
-                let mut a = String::new();
-                let mut b = String::new();
-                enc::afftree(&mut a, &again);
-                enc::afftree(&mut b, &next);
                 match r {
-                    Ok(counter) => write!(out, " idem {} {} {}", if a == b { 1 } else { 0 }, counter.lps_solved, log2.len()).unwrap(),
+                    Ok(counter) => write!(out, " idem {} {} {}", same_code(&again, &next), counter.lps_solved, log2.len()).unwrap(),
                     Err(_) => out.push_str(" idem 0 999 999"),
                 }
+                out.push_str(&evals(&again));
             } else {
                 out.push_str(" noidem");
             }
@@ -740,7 +772,10 @@ pub fn net_case(rng: &mut Rng, thorough: bool) -> String {
             write!(out, " built {}", if !panicked && sa == sb { 1 } else { 0 }).unwrap();
             out.push_str(&evals(&b));
         }
-        Err(_) => out.push_str(" buildpanic"),
+        Err(e) => {
+            out.push_str(" build");
+            out.push_str(panic_token(&e));
+        }
     }
     out
 }
